@@ -84,6 +84,9 @@ func (h *Header) Unpack(buf []byte) error {
 	lengthByte := buf[0]
 	h.longFormat = false
 	if lengthByte == longPacketFlag {
+		if len(buf) < longHeaderLength {
+			return fmt.Errorf("bad packet length: expected >=%d, got %d", longHeaderLength, len(buf))
+		}
 		// Long packet (>255B)
 		h.pktLength = binary.BigEndian.Uint16(buf[1:3])
 		h.pktType = PacketType(buf[3])
